@@ -17,7 +17,7 @@ func init() {
 		Run: runC20,
 		Explanation: "Static decision of who may delete chunks and what they may delete: (1) WHO: the chunk-deletion sinks of the filer (DeleteChunks, DirectDeleteChunks, the deletion queue, doDeleteFileIds) are called only from packages filer and weed_server, and every call site found is classified; (2) PROV: at each site the chunk argument is garbage computed as old-minus-new (MinusChunks / CompactFileChunks / the not-in-new loop), the chunks of an entry whose metadata this request deletes, or chunks uploaded by this very request; " +
 			"(3) ORDER-commit-then-delete: garbage is handed to a sink only on the nil-error edge of the metadata write, uploaded-but-uncommitted chunks only on its error edge; (4) GUARD-hardlink: inside package filer the chunks of a stored entry reach a sink only past a test of that entry's hard-link identity (another name may still reference them); the recursive delete collects a child's chunks only when it is not hard linked; " +
-			"(5) GUARD/CONST: the delete path hands chunks to the direct sink only when the request asked for data deletion and the bucket is not dropped as a whole; rename removes the old entry with delete-chunks=false. Reference counting over histories and the liveness half (every unreferenced chunk is scheduled) are not decided.",
+			"(5) GUARD/CONST: the delete path hands chunks to the direct sink only when the request asked for data deletion and the bucket is not dropped as a whole; rename removes the old entry with delete-chunks=false. Reference counting over histories and the liveness half (every unreferenced chunk is scheduled) are not decided. Also decided (ID-canonical): old and new chunks are matched by GetFileIdString, never by the raw FileId field that serialization clears.",
 		Assumptions: []string{"MinusChunks(a,b) returns chunks of a that are not in b", "the volume servers delete exactly what the sinks send"},
 		Trusted:     baseTrusted,
 	})
